@@ -406,7 +406,10 @@ OnCmdC(m, e) ==
 
 \* handler of the event producer
 OnCmdE(m, e) ==
-  IF m.eph \notin {"rloop", "tloop"} THEN
+  IF m.eunc /\ (m.eph \notin {"rloop", "tloop"} \/ e.c # m.ec \/ e.kind # (IF m.eph = "rloop" THEN "read" ELSE "test")) THEN
+     \* after an ambiguous match (identical units owed by both producers) the event producer may be one event further than assumed
+     Unclassified(m)
+  ELSE IF m.eph \notin {"rloop", "tloop"} THEN
      \* a handler that has just returned a terminal code (its event is closing) and is invoked again: the code table (C10) as well as exactly-once (C13)
      AddBad(m, IF Closing(m, e.c, CT_NONE) THEN "C10,C13" ELSE "C13", <<"event handler invoked but no event is due", e.kind, e.c>>)
   ELSE LET want == IF m.eph = "rloop" THEN "read" ELSE "test" IN
@@ -439,6 +442,7 @@ OnVr(m, e) ==
           LET m1 == MonNested([m EXCEPT !.emaybe = 0], e.in, "e") IN
           IF m1.lost THEN m1 ELSE IF e.r # 0 THEN StartEv(EvDone([m1 EXCEPT !.lastfail = <<e.c, e.v>>])) ELSE AdvEvRead([m1 EXCEPT !.evr = TRUE])
      ELSE IF m.lastfail = <<e.c, e.v>> THEN AddBad(m, "C10", <<"variable callback failed but the processing was not aborted", e.c, e.v>>)
+     ELSE IF m.eunc THEN Unclassified(m)
      ELSE IF e.c # m.cc /\ e.c # m.ec THEN
           AddBad(m, IF Disabled(m.cfg, e.c) THEN "C09" ELSE "C02", <<"variable callback of a command that is not being processed", e.c, e.v>>)
      ELSE Unclassified(m)
